@@ -70,7 +70,7 @@ for _p in PLAN:
 
 WATCHDOG = {"quick": 900, "thorough": 5400}
 # per-case limit in seconds (a single generated case is milliseconds; C18 configurations and thorough C11 id sweeps are the long ones)
-CASE_LIMIT = {"default": 60, "C18": 600, "C09": 300}
+CASE_LIMIT = {"default": 60, "C18": 600, "C09": 150}
 
 
 def log(*a):
@@ -207,6 +207,7 @@ def run_children(prop, tier, seed, plan, workdir, only=None):
                 p["rc"] = "not-started"
             running, pending = [], []
     results, fatals, incon, races = [], [], [], []
+    hung_families = {}
     for p in procs:
         tail = ""
         try:
@@ -237,6 +238,11 @@ def run_children(prop, tier, seed, plan, workdir, only=None):
         except OSError:
             pass
         m = re.search(r"^WATCHDOG (\S+) (\d+) ", tail_head(p["errf"]), re.M) if p.get("rc") == 4 else None
+        if m and m.group(1) in hung_families:
+            # the same family already reproduced a no-return in an isolated replay of another shard: not replayed again
+            fatals.append({"variant": p["variant"], "shard": p["shard"], "n": p["n"], "rc": "no-return", "wal": "%s %s" % (m.group(1), m.group(2)),
+                           "stderr_tail": "case did not return within the per-case limit; family %s already reproduced this in an isolated replay (%s)" % (m.group(1), hung_families[m.group(1)])})
+            continue
         if m:
             # isolated replay of that single case with a larger budget; only a reproduced expiry is a verdict
             fam, idx = m.group(1), int(m.group(2))
@@ -249,6 +255,7 @@ def run_children(prop, tier, seed, plan, workdir, only=None):
             except subprocess.TimeoutExpired as e:
                 rc2, out2 = 4, "WATCHDOG (runner timeout) " + str(e)
             if rc2 == 4:
+                hung_families[fam] = "index %d" % idx
                 fatals.append({"variant": p["variant"], "shard": p["shard"], "n": p["n"], "rc": "no-return", "wal": "%s %d" % (fam, idx),
                                "stderr_tail": "case did not return within %ds, reproduced in an isolated replay (%ds)\n%s" % (lim // 2, lim, out2[-4000:])})
             else:
